@@ -16,6 +16,7 @@ package bayes
 
 import (
 	"math"
+	"sort"
 	"strings"
 
 	"github.com/sboehler/knut/lib/common/dict"
@@ -81,42 +82,68 @@ func newCountByAccount() countByAccount {
 // P(A | T1 & T2 & ... & Tn) ~ P(A) * P(T1|A) * P(T2|A) * ... * P(Tn|A)
 func (m *Model) Infer(t *syntax.Transaction) {
 	for i := range t.Bookings {
-		credit := t.Bookings[i].Credit.Extract()
-		debit := t.Bookings[i].Debit.Extract()
-		if credit == m.account {
-			t.Bookings[i].Credit = m.inferAccount(t, &t.Bookings[i], debit)
+		b := &t.Bookings[i]
+		if b.Credit.Extract() == m.account {
+			if acc, ok := m.inferAccount(t, b, b.Debit.Extract()); ok {
+				b.Credit = acc
+			}
 		}
-		if debit == m.account {
-			t.Bookings[i].Debit = m.inferAccount(t, &t.Bookings[i], credit)
+		if b.Debit.Extract() == m.account {
+			// the other account is the credit account as it is now (possibly just inferred)
+			if acc, ok := m.inferAccount(t, b, b.Credit.Extract()); ok {
+				b.Debit = acc
+			}
 		}
 	}
 }
 
-func (m *Model) inferAccount(t *syntax.Transaction, b *syntax.Booking, other string) syntax.Account {
+// inferAccount returns the best candidate, or false if the model has no
+// candidate other than the other account of the booking. Candidates are
+// visited in sorted order, so that equal scores are resolved the same way
+// on every run.
+func (m *Model) inferAccount(t *syntax.Transaction, b *syntax.Booking, other string) (syntax.Account, bool) {
 	var (
 		tokens = tokenize(t, b, other)
 		max    = math.Inf(-1)
 		best   string
+		found  bool
 	)
+	candidates := make([]string, 0, len(m.countByAccount))
 	for candidate := range m.countByAccount {
+		candidates = append(candidates, candidate)
+	}
+	sort.Strings(candidates)
+	for _, candidate := range candidates {
 		if candidate == other {
 			continue // the other account of this booking is not a valid candidate
 		}
 		score := m.scoreCandidate(candidate, tokens)
-		if score > max {
+		if !found || score > max {
 			best = candidate
 			max = score
+			found = true
 		}
+	}
+	if !found {
+		return syntax.Account{}, false
 	}
 	return syntax.Account{
 		Range: syntax.Range{Start: 0, End: len(best), Text: best},
-	}
+	}, true
 }
 
 func (m *Model) scoreCandidate(candidate string, tokens set.Set[token]) float64 {
 	count := float64(m.countByAccount[candidate])
 	score := math.Log(count / float64(m.count))
+	// sum in a fixed order: floating point addition is not associative, and
+	// candidates with equal scores must get bit-identical sums on every run
+	sorted := make([]string, 0, len(tokens))
 	for token := range tokens {
+		sorted = append(sorted, string(token))
+	}
+	sort.Strings(sorted)
+	for _, s := range sorted {
+		token := token(s)
 		if countForToken, ok := m.countByTokenAndAccount[token][candidate]; ok {
 			score += math.Log(float64(countForToken) / count)
 		} else {
